@@ -99,9 +99,18 @@ def build(tree: dict[str, Any], rng: random.Random) -> list[dict[str, Any]]:
             body.extend(recs(rng.choice([0, 1])))
         body.append({"op": "gate", "label": f"{name}.out"})
         body.extend(recs(rng.choice([0, 1, 2])))
-        return {"op": "block", "kind": kinds[i], "name": name, "supply": [], "body": body, "completion": "sync", "catch": True}
+        b: dict[str, Any] = {"op": "block", "kind": kinds[i], "name": name, "supply": [], "body": body, "completion": "sync", "catch": True}
+        # every third scope starts a trace of its own (an explicit trace id, different from the enclosing one): it stays nested all the same
+        if (i + n) % 3 == 0:
+            b["trace_id"] = f"trace-{i}"
+            if i > 0:
+                own_trace_nested.append(i)
+        return b
 
-    return [*recs(1), node(0), *recs(1)]
+    own_trace_nested: list[int] = []
+    out_prog = [*recs(1), node(0), *recs(1)]
+    tree["own_trace_nested"] = len(own_trace_nested)
+    return out_prog
 
 
 def run_once(prog: list[dict[str, Any]], chooser: Chooser) -> dict[str, Any]:
